@@ -416,6 +416,18 @@ func vmHooks(c *Ctx, m *vmModel) Hooks {
 			}
 			p.events = append(p.events, vmEvent{Kind: "const", Detail: d, Pos: e.Pos()})
 			return tagV("constant", d), true
+		default:
+			if fp := c.fieldPath(e.X); strings.HasSuffix(fp, ".Fields") {
+				base := "?"
+				if sel, ok := stripParens(e.X).(*ast.SelectorExpr); ok {
+					for _, bv := range in.eval(st, sel.X) {
+						base = bv.v.String()
+						break
+					}
+				}
+				return tagV("lookup", "Fields of "+base+"["+idx.String()+"]"), true
+			}
+			return Value{}, false
 		case "<vm>.blockStack":
 			l, ok := idx.asLin()
 			if !ok {
@@ -529,7 +541,12 @@ func vmHooks(c *Ctx, m *vmModel) Hooks {
 						break
 					}
 				}
-				p.events = append(p.events, vmEvent{Kind: "mapw", Detail: "Fields of " + base, Pos: lhs.Pos(), Val: v})
+				key := "?"
+				for _, kv := range in.eval(st, ix.Index) {
+					key = kv.v.String()
+					break
+				}
+				p.events = append(p.events, vmEvent{Kind: "mapw", Detail: "Fields of " + base, Pos: lhs.Pos(), Val: v, Callee: key})
 				return true
 			}
 		}
@@ -683,6 +700,13 @@ func vmHooks(c *Ctx, m *vmModel) Hooks {
 			}
 			for _, a := range call.Args {
 				paths = append(paths, c.fieldPath(a))
+			}
+			if sel, ok := stripParens(call.Fun).(*ast.SelectorExpr); ok {
+				if id, ok := stripParens(sel.X).(*ast.Ident); ok {
+					if rv, ok := st.Env[c.objOf(id)]; ok {
+						as = append([]string{"recv=" + rv.String()}, as...)
+					}
+				}
 			}
 			detail := name + "(" + strings.Join(as, ", ") + ")"
 			p.events = append(p.events, vmEvent{Kind: "call", Detail: detail, Pos: call.Pos(), Args: args, Paths: paths, Callee: name})
